@@ -165,12 +165,18 @@ func vhC01Pairs(k int) ([]vhPgon, []vhPgon) {
 		return []vhPgon{{{0, 0}, {6, 0}, {6, 6}}}, []vhPgon{{{6, 2}, {10, 2}, {6, 8}}}
 	case 10: // empty subject
 		return nil, []vhPgon{vhRect(0, 0, 6, 6, true)}
-	default: // empty clipping path
+	case 11: // empty clipping path
 		return []vhPgon{vhRect(0, 0, 6, 6, true)}, nil
+	case 12: // P a frame whose hole is away from Q (the hole's box does not touch Q's box)
+		return []vhPgon{vhRect(0, 0, 20, 20, true), vhRect(12, 12, 18, 18, false)}, []vhPgon{vhRect(1, 1, 5, 5, true)}
+	case 13: // Q a frame whose hole is away from P
+		return []vhPgon{vhRect(1, 1, 5, 5, true)}, []vhPgon{vhRect(0, 0, 20, 20, true), vhRect(12, 12, 18, 18, false)}
+	default: // P with an island inside its hole, Q over the outer ring only
+		return []vhPgon{vhRect(0, 0, 20, 20, true), vhRect(6, 6, 18, 18, false), vhRect(10, 10, 14, 14, true)}, []vhPgon{vhRect(-2, 1, 3, 4, true)}
 	}
 }
 
-const vhC01NPairs = 12
+const vhC01NPairs = 15
 
 func VH_C01_boolean_region_Q() {
 	pair := vChoose(0, vhC01NPairs-1)
